@@ -13,11 +13,29 @@
 // year end/start, last hour of a day + first hour of the next day); 1-3 metrics with 1-5 fields
 // of type sum/min/max/last/first, 1-5 series, values k/8; a history of write / flush (all or
 // some families) / rollup (kv.VerifRollup per family, or Store.ForceRollup) / reopen steps,
-// optionally one crash image taken between two manifest commits of a rollup job, optionally 1-2
-// harness-owned interleavings (a write + flush of a source family runs on the rollup job's
-// goroutine at the moment the job has created an output table in the target family, so the new
-// source file is not an input of the running job and must keep waiting), and up to 3
+// optionally 1-2 harness-owned interleavings (a write + flush of a source family runs on the
+// rollup job's goroutine at the moment the job has created an output table in the target family,
+// so the new source file is not an input of the running job and must keep waiting), and up to 3
 // queries `select f from m ... group by host,time(<target>)`.
+// Crashes: a rollup step may carry a crash point (crashKinds: before the first target commit,
+// between the two target commits, before the source commit, before the first / between the
+// reference clean-ups of ONE job). The node directory is copied there - the process dies - and
+// THE HISTORY CONTINUES ON THE RECOVERED IMAGE (1-3 restarts) with the full menu of steps: new
+// flushes into the SAME source family (a new file next to the half-rolled-up ones), flushes into
+// other source families of the same target family, rollup jobs that are asked for {already merged,
+// new} files, further crashes inside the retried job (up to 3 per history), plain restarts,
+// eviction of target segments, compaction of the target families, readers. More than half of the
+// crash points lie in the window "target commit done, source commit not": there exactly-once
+// hangs on the reference records of the target family alone. After a crash the generator mostly
+// continues with a recovery episode (new files into the same / another family, optional restart /
+// evict / compaction, the retry - which may die again -, compaction, second round); a history with
+// a crash always ends with two complete rollups of everything.
+// I/O faults: instead of dying, ONE manifest write of a job may fail (faultKinds: first / second
+// target commit, source commit, first / second reference clean-up); the record is not written,
+// the process lives on, the job is retried by the following rollup steps (same episodes).
+// Compaction of the target: compactTarget steps run the level-0 compaction of the families of the
+// open target segments (the job of Family.Compact), also while reference records of an
+// interrupted job are held.
 // Target segments that are not open: a rollup job merges into a target interval only if the kv
 // store of the target segment is known to the store manager, otherwise it skips that interval
 // and the files keep waiting for it. Histories therefore also contain evict steps
@@ -54,13 +72,17 @@
 // the location (segment name, family name, slot) is computed with Go's calendar, not
 // with lindb's calculators. After a rollup job the source families list exactly the files not
 // yet rolled up, each for exactly the intervals it has not been rolled up into, and no target
-// family keeps a reference file. A crash image is restarted (once
-// or twice), rolled up again twice, and must then hold every source file exactly once.
+// family keeps a reference file. On a crash image (and after a failed manifest write) the model
+// knows, from the commits the harness saw before the copy, which (file, interval) pairs are merged
+// in the target but still listed by the source ("merged, not acknowledged") and which reference
+// records exist: the same oracle - target == aggregate of the merged files, source lists ==
+// model, reference records == model - is evaluated right after the restart and after every
+// following step; a retried job must merge exactly the files the target does not hold yet.
 // Exactly once is also counted, so that a repetition which the aggregate hides (min, max, first,
 // last, sums of zeros) is seen: a rollup job writes what it merges into a target family into one
-// new file and the histories never compact a target family, hence every cell is stored in
-// exactly as many files of its target family as rollup jobs merged a source file with a point
-// for it. What a reader sees through a held snapshot of a target family is, when it is taken
+// new file, hence every cell is stored in exactly as many files of its target family as rollup
+// jobs merged a source file with a point for it; a level-0 compaction of a target family merges
+// all its files, the jobs up to then count as one file of that family. What a reader sees through a held snapshot of a target family is, when it is taken
 // and when it is released, exactly the aggregate of the files rolled up when it was taken.
 //
 // Non-trivial case: some target slot is fed by >= 2 source slots and >= 2 source files were
@@ -69,6 +91,7 @@ package c04
 
 import (
 	"encoding/json"
+	"errors"
 	"fmt"
 	"math"
 	"os"
@@ -145,6 +168,27 @@ const (
 	monotoneSlots      = false
 )
 
+// Failed manifest writes inside a rollup job (step.Fault). Two genuine defects were found by this
+// class (regression_test.go) and are repaired in /repo (cf89614, 36e355d); their signatures are
+// kept so that a shape can be taken out of the generator again should a finding ever be LISTED in
+// known_findings.json (ev.Known; "fixed" entries suppress nothing): the full fault menu is generated.
+const (
+	sigTargetCommitErrorIgnored = "C04/rollup-target-commit-error-ignored-files-marked-rolled-up"
+	sigSourceCommitErrorIgnored = "C04/rollup-source-commit-error-ignored-references-cleaned"
+)
+
+func faultSignature(kind string) string {
+	switch kind {
+	case "target1", "target2":
+		return sigTargetCommitErrorIgnored
+	case "source":
+		return sigSourceCommitErrorIgnored
+	}
+	return ""
+}
+
+func excluded(sig string) bool { return sig != "" && ev.Known(sig) }
+
 // ---- plan (the generated case) ---------------------------------------------------------------
 
 // source intervals: day type, divide 1h and divide every generated target (all divide 5 min).
@@ -187,7 +231,7 @@ type famPos struct {
 }
 
 type step struct {
-	Kind   string  `json:"kind"` // write | flush | rollup | reopen | evict | touch | snap | release
+	Kind   string  `json:"kind"` // write | flush | rollup | reopen | evict | touch | snap | release | compactTarget
 	Points []point `json:"points,omitempty"`
 	// write: the rows go straight into the data families the writer already holds (an existing
 	// write-ahead-log partition keeps its tsdb.DataFamily); otherwise the writer looks the family
@@ -202,11 +246,27 @@ type step struct {
 	Keep []int `json:"keep,omitempty"`
 	// touch: the lookup of a query on target interval Target over the hour of source family
 	// TouchFam (Shard.GetDataFamilies); opens the segment if it is closed.
-	Target   int    `json:"target,omitempty"`
-	TouchFam int    `json:"touchFam,omitempty"`
-	Families []int  `json:"families,omitempty"` // flush/rollup: family indexes; empty = all
-	Force    bool   `json:"force,omitempty"`    // rollup through Store.ForceRollup (all families of the store, concurrently)
-	Crash    string `json:"crash,omitempty"`    // rollup: take a crash image at this point of the rollup
+	Target   int   `json:"target,omitempty"`
+	TouchFam int   `json:"touchFam,omitempty"`
+	Families []int `json:"families,omitempty"` // flush/rollup: family indexes; empty = all
+	Force    bool  `json:"force,omitempty"`    // rollup through Store.ForceRollup (all families of the store, concurrently)
+	// rollup (one job after the other): the process dies at this point of a job of the step (see
+	// crashKinds): the node directory is copied there ("crash image"), the rest of the step is
+	// forgotten, the engine is restarted Restarts (1-3) times on the image and THE HISTORY CONTINUES
+	// ON THE RECOVERED IMAGE with whatever steps follow. If no job of the step reaches the point,
+	// nothing dies and the step is an ordinary rollup step.
+	Crash    string `json:"crash,omitempty"`
+	Restarts int    `json:"restarts,omitempty"`
+	// crash: right after the restart(s) a reader (the first query) takes a snapshot of every source
+	// family - the recovered versions, which list whatever the interrupted job left registered -
+	// and holds it until the next restart or the end of the history
+	CrashReader bool `json:"crashReader,omitempty"`
+	// rollup (one job after the other): the manifest write of this commit of a job of the step
+	// fails with an I/O error (the record is not written, see faultKinds); the process lives on
+	// and the job is retried by a later rollup step
+	Fault string `json:"fault,omitempty"`
+	// compactTarget: level-0 compaction (kv.VerifCompactSync, the job of Family.Compact) of every
+	// family of the open segments of target interval Target; Target == number of targets: of all.
 	// rollup (one job after the other): source-side steps that run while a job is merging into the
 	// target (harness-owned interleaving, see inject)
 	Inject []inject `json:"inject,omitempty"`
@@ -249,12 +309,6 @@ type plan struct {
 	NSeries  int      `json:"nSeries"`
 	Steps    []step   `json:"steps"`
 	Queries  []qspec  `json:"queries,omitempty"`
-	// restarts on the crash image before the rollup is repeated (2 = the engine is opened, shut
-	// down and opened again, so the manifests are rewritten twice)
-	CrashRestarts int `json:"crashRestarts,omitempty"`
-	// after the restart(s) on the crash image a reader takes a snapshot of every source family
-	// and holds it across the repeated rollups
-	CrashReader bool `json:"crashReader,omitempty"`
 }
 
 // qspec: one `select <field> from <metric> where time in <hour of the family> group by host, time(<target>)`.
@@ -347,7 +401,7 @@ func genPlan(t *rapid.T) *plan {
 	p.NSeries = rapid.IntRange(1, 5).Draw(t, "nSeries")
 
 	// steps
-	g := &stepGen{t: t, p: p, last: map[string]int{}, mem: map[int]bool{}, pend: map[int]bool{}, onlyFam: -1, closed: map[int]bool{}}
+	g := &stepGen{t: t, p: p, last: map[string]int{}, mem: map[int]bool{}, pend: map[int]bool{}, onlyFam: -1, closed: map[int]bool{}, crashFam: -1}
 	nSteps := rapid.IntRange(3, 10).Draw(t, "nSteps")
 	first := step{Kind: "write"}
 	if primeSeries {
@@ -355,23 +409,46 @@ func genPlan(t *rapid.T) *plan {
 	}
 	first.Points = append(first.Points, g.write().Points...)
 	p.Steps = append(p.Steps, g.commit(first))
-	crashUsed := false
-	// one rollup step, optionally with a crash image or harness-owned interleavings
-	mkRollup := func(must int) step {
+	// one rollup step, optionally with a crash (the history continues on the recovered image), a
+	// failed manifest write, or harness-owned interleavings
+	const maxCrashes, maxFaults = 3, 2
+	var mkRollup func(must int) step
+	mkRollup = func(must int) step {
 		s := g.rollup(must)
-		if !crashUsed && !s.Force && g.hasPending(s.Families) && rapid.IntRange(0, 2).Draw(t, "crashHere") > 0 {
-			s.Crash = g.crashKind()
-			crashUsed = true
+		canBreak := !s.Force && g.hasPending(s.Families)
+		switch {
+		case canBreak && g.crashes < maxCrashes && rapid.IntRange(0, 2+2*g.crashes).Draw(t, "crashHere") > 2*g.crashes:
+			// first crash: 2 of 3 eligible rollup steps; later ones rarer - except right after a
+			// crash, where the retry itself is interrupted (see recovery)
+			g.crash(&s)
+		case canBreak && g.faults < maxFaults && rapid.IntRange(0, 3).Draw(t, "faultHere") == 0:
+			g.fault(&s)
 		}
 		jobs := g.pendingOf(s.Families)
-		g.rolled(s.Families)
-		if s.Crash == "" && !s.Force && len(jobs) > 0 && rapid.IntRange(0, 2).Draw(t, "injectHere") == 0 {
+		if s.Crash == "" && s.Fault == "" {
+			g.rolled(s.Families)
+		}
+		if !s.Force && len(jobs) > 0 && rapid.IntRange(0, 2).Draw(t, "injectHere") == 0 {
 			s.Inject = g.injections(jobs)
 		}
 		return s
 	}
+	// recover: after a crash step the history continues on the image; mostly with the shapes
+	// that matter there (new files next to the half-rolled-up ones, then the retry)
+	recover := func() {
+		for g.crashFam >= 0 {
+			fam := g.crashFam
+			g.crashFam = -1
+			if rapid.IntRange(0, 5).Draw(t, "recoveryEpisode") > 0 {
+				p.Steps = append(p.Steps, g.recovery(fam, mkRollup)...)
+			}
+		}
+	}
+	recover()
 	for i := 1; i < nSteps; i++ {
-		switch k := rapid.IntRange(0, 111).Draw(t, "stepKind"); {
+		switch k := rapid.IntRange(0, 119).Draw(t, "stepKind"); {
+		case k >= 112:
+			p.Steps = append(p.Steps, g.compactTarget())
 		case k >= 100:
 			// readers: an episode (snapshot, rollup, rollup again ...), a single snapshot or a release
 			switch r := rapid.IntRange(0, 9).Draw(t, "readerKind"); {
@@ -403,11 +480,14 @@ func genPlan(t *rapid.T) *plan {
 				p.Steps = append(p.Steps, g.touch())
 			}
 		}
+		recover()
 	}
-	if rapid.IntRange(0, 9).Draw(t, "finalRollup") < 8 {
+	broken := g.crashes+g.faults > 0
+	if broken || rapid.IntRange(0, 9).Draw(t, "finalRollup") < 8 {
+		// (always after a crash or a fault: whatever the interrupted jobs left is retried at the end)
 		final := step{Kind: "rollup"}
 		p.Steps = append(p.Steps, g.flush())
-		if len(g.closed) > 0 && rapid.IntRange(0, 2).Draw(t, "lookupBeforeFinal") > 0 {
+		if len(g.closed) > 0 && (broken || rapid.IntRange(0, 2).Draw(t, "lookupBeforeFinal") > 0) {
 			// queries look every closed target up again before the last rollup
 			for _, k := range g.closedList() {
 				for f := range p.Families {
@@ -416,22 +496,19 @@ func genPlan(t *rapid.T) *plan {
 				delete(g.closed, k)
 			}
 		}
-		if !crashUsed && g.hasPending(nil) && rapid.Bool().Draw(t, "crashAtFinal") {
-			final.Crash = g.crashKind()
+		if g.crashes < maxCrashes && g.hasPending(nil) && rapid.IntRange(0, 1+2*g.crashes).Draw(t, "crashAtFinal") == 0 {
+			g.crash(&final)
+			g.crashFam = -1
+			p.Steps = append(p.Steps, final)
+			final = step{Kind: "rollup"}
 		}
-		if jobs := g.pendingOf(nil); final.Crash == "" && len(jobs) > 0 && rapid.IntRange(0, 3).Draw(t, "injectAtFinal") == 0 {
+		if jobs := g.pendingOf(nil); len(jobs) > 0 && rapid.IntRange(0, 3).Draw(t, "injectAtFinal") == 0 {
 			g.rolled(nil)
 			final.Inject = g.injections(jobs)
 		}
 		p.Steps = append(p.Steps, final)
-		if rapid.Bool().Draw(t, "finalAgain") {
+		if broken || rapid.Bool().Draw(t, "finalAgain") {
 			p.Steps = append(p.Steps, step{Kind: "rollup"})
-		}
-	}
-	for _, st := range p.Steps {
-		if st.Crash != "" {
-			p.CrashRestarts = rapid.SampledFrom([]int{1, 1, 2}).Draw(t, "crashRestarts")
-			p.CrashReader = rapid.IntRange(0, 2).Draw(t, "crashReader") == 0
 		}
 	}
 	for i, n := 0, rapid.IntRange(0, 3).Draw(t, "nQueries"); i < n; i++ {
@@ -459,6 +536,103 @@ type stepGen struct {
 	// readers that hold a snapshot (ids), last id given out
 	held       []int
 	nextReader int
+	// crashes / failed manifest writes planned so far; crashFam >= 0: a crash step was just
+	// generated inside a job of that family and no recovery episode has followed yet
+	crashes, faults int
+	crashFam        int
+}
+
+// crash turns a rollup step into one inside which the process dies. The window between the
+// target commit and the source commit is the one where "exactly once" hangs on the reference
+// records alone: more than half of the crashes lie there (beforeSourceCommit; betweenTargets is
+// inside it for the first interval).
+func (g *stepGen) crash(s *step) {
+	t := g.t
+	kinds := []string{"beforeSourceCommit", "beforeSourceCommit", "beforeSourceCommit", "beforeSourceCommit", "beforeFirstClean", "beforeFirstTarget"}
+	if g.p.Month > 0 && g.p.Year > 0 {
+		kinds = []string{"beforeSourceCommit", "beforeSourceCommit", "beforeSourceCommit", "beforeSourceCommit", "betweenTargets", "betweenTargets", "beforeFirstClean", "betweenCleans", "beforeFirstTarget"}
+	}
+	s.Crash = rapid.SampledFrom(kinds).Draw(t, "crashKind")
+	s.Restarts = rapid.SampledFrom([]int{1, 1, 1, 2, 2, 3}).Draw(t, "crashRestarts")
+	s.CrashReader = rapid.IntRange(0, 3).Draw(t, "crashReader") == 0
+	g.crashes++
+	// the job that is interrupted: the first selected family with files waiting (estimate)
+	jobs := g.pendingOf(s.Families)
+	g.crashFam = jobs[0]
+	g.mem = map[int]bool{}    // rows in memory are lost
+	g.held = nil              // the readers die with the process
+	g.closed = map[int]bool{} // the restart reopens the source families: all target segments open
+	g.last = map[string]int{}
+}
+
+func (g *stepGen) fault(s *step) {
+	kinds := []string{"source", "source", "target1", "target1", "clean1"}
+	if g.p.Month > 0 && g.p.Year > 0 {
+		kinds = []string{"source", "source", "source", "target1", "target1", "target2", "clean1", "clean2"}
+	}
+	var allowed []string
+	for _, k := range kinds {
+		if !excluded(faultSignature(k)) {
+			allowed = append(allowed, k)
+		}
+	}
+	if len(allowed) == 0 {
+		return
+	}
+	s.Fault = rapid.SampledFrom(allowed).Draw(g.t, "faultKind")
+	g.faults++
+	g.crashFam = g.pendingOf(s.Families)[0] // followed by the same episodes as a crash (new files, retry)
+}
+
+// recovery: the steps right after a crash inside a job of family fam. New files next to the
+// half-rolled-up ones (same family: the retried job gets {merged, new} files; another family of
+// the same day: another job merges into the same target family first), optionally one more
+// restart, an eviction, a compaction of the target; then the retry - which may die again - and
+// mostly a second round.
+func (g *stepGen) recovery(fam int, mkRollup func(must int) step) (rs []step) {
+	t := g.t
+	write := func(f int) {
+		g.onlyFam = f
+		rs = append(rs, g.writeStep())
+		g.onlyFam = -1
+		rs = append(rs, g.flushWith(f))
+	}
+	for round, n := 0, rapid.SampledFrom([]int{1, 1, 2, 2, 3}).Draw(t, "recoveryRounds"); round < n; round++ {
+		switch k := rapid.IntRange(0, 9).Draw(t, "recoveryFiles"); {
+		case k < 6:
+			write(fam)
+		case k < 8 && len(g.p.Families) > 1:
+			write(rapid.IntRange(0, len(g.p.Families)-1).Draw(t, "recoveryOtherFam"))
+			if rapid.Bool().Draw(t, "recoveryBoth") {
+				write(fam)
+			}
+		}
+		switch k := rapid.IntRange(0, 11).Draw(t, "recoveryExtra"); k {
+		case 0:
+			g.reopened()
+			rs = append(rs, step{Kind: "reopen"})
+		case 1:
+			rs = append(rs, g.evict())
+		case 2, 3:
+			rs = append(rs, g.compactTarget())
+		}
+		before := g.crashes
+		rs = append(rs, mkRollup(fam))
+		if g.crashes > before {
+			// died again inside the retry: carry on from there
+			fam = g.crashFam
+			g.crashFam = -1
+			continue
+		}
+		if rapid.IntRange(0, 3).Draw(t, "recoveryCompactAfter") == 0 {
+			rs = append(rs, g.compactTarget())
+		}
+	}
+	return rs
+}
+
+func (g *stepGen) compactTarget() step {
+	return step{Kind: "compactTarget", Target: rapid.IntRange(0, len(g.p.targets())).Draw(g.t, "compactTarget")}
 }
 
 // snap: a new reader takes a snapshot of source family fam, or (orTarget, 1 in 4) of the target
@@ -760,14 +934,6 @@ func (g *stepGen) rollup(must int) step {
 	return s
 }
 
-func (g *stepGen) crashKind() string {
-	kinds := []string{"beforeSourceCommit", "beforeSourceCommit", "beforeFirstClean"}
-	if g.p.Month > 0 && g.p.Year > 0 {
-		kinds = []string{"beforeSourceCommit", "beforeFirstClean", "betweenTargets", "betweenTargets", "betweenTargets", "betweenCleans"}
-	}
-	return rapid.SampledFrom(kinds).Draw(g.t, "crashKind")
-}
-
 // commit orders the points of a write step by time (so slots never go backwards inside the
 // step) and remembers the last slot per family/metric/series/field.
 func (g *stepGen) commit(s step) step {
@@ -959,10 +1125,28 @@ type filePoints struct {
 	jobs   map[int64]int // target interval -> id of the rollup job that merged the file into it
 }
 
-// srcFile is one flushed source file and the target intervals it has been rolled up into.
+// srcFile is one flushed source file and, per target interval, how far its rollup has got.
+// A rollup job commits three times: (1) in the target family the rolled-up output together with
+// a reference record "source file F is merged in"; (2) in the source family "F no longer waits
+// for this interval"; (3) in the target family "forget the reference to F". A crash (or a failed
+// manifest write) between those commits leaves the states in between.
 type srcFile struct {
 	filePoints
-	done map[int64]bool // target interval -> rolled up
+	done map[int64]bool // target interval -> the target family holds the file's points (commit 1 happened)
+	// commit 1 happened, commit 2 did not: the source family still lists the file as waiting for
+	// the interval; the next job of the family is asked for the file again and must not merge it
+	unacked map[int64]bool
+	// the target family holds a reference record for the file (commit 1 happened, commit 3 did not)
+	ref map[int64]bool
+	// whether the reference record still exists is not determined by the property (after a failed
+	// source commit): the reference check accepts both
+	refLoose map[int64]bool
+	number   int64 // kv file number in the source store (read back from the source family)
+}
+
+func newSrcFile(id int, pts []point) *srcFile {
+	return &srcFile{filePoints: filePoints{ID: id, Points: pts, jobs: map[int64]int{}},
+		done: map[int64]bool{}, unacked: map[int64]bool{}, ref: map[int64]bool{}, refLoose: map[int64]bool{}}
 }
 
 type famState struct {
@@ -974,10 +1158,11 @@ type famState struct {
 	idx     int        // index into plan.Families
 }
 
-// waitingFor lists the files of the family that still have to be rolled up into the target.
+// waitingFor lists the files of the family that the source family lists as waiting for the
+// target: not rolled up into it yet, or rolled up but not yet acknowledged on the source side.
 func (f *famState) waitingFor(target int64) (rs []*srcFile) {
 	for _, sf := range f.files {
-		if !sf.done[target] {
+		if !sf.done[target] || sf.unacked[target] {
 			rs = append(rs, sf)
 		}
 	}
@@ -1000,7 +1185,7 @@ func (f *famState) waiting(targets []int64) (rs []*srcFile, ivs [][]int64) {
 	for _, sf := range f.files {
 		var w []int64
 		for _, tg := range targets {
-			if !sf.done[tg] {
+			if !sf.done[tg] || sf.unacked[tg] {
 				w = append(w, tg)
 			}
 		}
@@ -1074,9 +1259,26 @@ type env struct {
 	// files as jobs contributed to it (switched off where the model does not know the jobs)
 	countFiles bool
 
-	crashDir   string // image directory (taken at most once)
-	crashKind  string
-	crashFiles []filePoints // source files on disk when the image was taken
+	dirs    []string     // every directory of the case (removed at the end)
+	dead    map[int]bool // readers that died with a crashed process
+	crashes int          // crashes so far (the history runs on the image of the last one)
+	faults  int          // failed manifest writes so far
+	// the last crash: kind, family of the interrupted job, and the files of that family that were
+	// merged into some target while the source family still lists them
+	lastCrash *crashInfo
+	// level-0 compaction of a target family merges every file of the family into one: all rollup
+	// jobs up to that number count as one file of that family from then on (key target/segment/family)
+	compacted map[string]int
+}
+
+type crashInfo struct {
+	kind      string
+	fam       int
+	inWindow  bool         // >= 1 (file, interval) merged in the target and still listed by the source
+	files     map[int]bool // ids of the files of fam that existed at the crash
+	newSame   bool         // a file was flushed into fam since
+	newOther  bool         // a file was flushed into another source family of the same target family since
+	restarted int
 }
 
 func (e *env) class(c string) { e.classes[c] = true }
@@ -1265,6 +1467,8 @@ type heldSnap struct {
 	tf     targetFamily
 	target int64
 	want   map[cell][]contrib
+	// the compactions of target families that had happened when the snapshot was taken
+	compacted map[string]int
 }
 
 func (e *env) readerIDs() (rs []int) {
@@ -1323,7 +1527,11 @@ func (e *env) takeReader(op readerOp, when string, midJob bool) {
 				want[c] = cs
 			}
 		}
-		hs := heldSnap{snap: tf.kvFamily.GetSnapshot(), tf: tf, target: target, want: want}
+		compacted := map[string]int{}
+		for k, v := range e.compacted {
+			compacted[k] = v
+		}
+		hs := heldSnap{snap: tf.kvFamily.GetSnapshot(), tf: tf, target: target, want: want, compacted: compacted}
 		r.snaps = append(r.snaps, hs)
 		e.class("reader: snapshot of a target family")
 		e.readHeld(fmt.Sprintf("%s: reader %d takes a snapshot of the target family", when, op.ID), hs, id)
@@ -1337,7 +1545,7 @@ func (e *env) readHeld(when string, hs heldSnap, id *ids) {
 	if msg := e.readFamily(hs.tf, hs.snap, id, got); msg != "" {
 		e.fatalf("%s: %s", when, msg)
 	}
-	e.compare(when, hs.target, hs.want, got, nil)
+	e.compare(when, hs.target, hs.want, got, nil, hs.compacted)
 }
 
 // releaseReader: the reader reads once more through its target snapshots, then closes.
@@ -1496,8 +1704,35 @@ func (e *env) memToFile(f *famState) {
 		return
 	}
 	e.nextID++
-	f.files = append(f.files, &srcFile{filePoints: filePoints{ID: e.nextID, Points: f.mem, jobs: map[int64]int{}}, done: map[int64]bool{}})
+	f.files = append(f.files, newSrcFile(e.nextID, f.mem))
 	f.mem = nil
+	// a new source file while files of an interrupted job are merged but not acknowledged
+	for _, x := range e.fams {
+		if !x.hasUnacked() {
+			continue
+		}
+		how := "a crash"
+		if e.crashes == 0 {
+			how = "a failed source commit"
+		}
+		switch {
+		case x == f:
+			e.class("after " + how + " in the window: new file flushed into the SAME source family before the retry")
+		case e.sharesTargetFamily(x.idx, f.idx):
+			e.class("after " + how + " in the window: new file flushed into another source family of the same target family before the retry")
+		}
+	}
+}
+
+func (f *famState) hasUnacked() bool {
+	for _, sf := range f.files {
+		for _, v := range sf.unacked {
+			if v {
+				return true
+			}
+		}
+	}
+	return false
 }
 
 // flush follows the production flush order: metadata, index, then the data families.
@@ -1527,23 +1762,56 @@ func (e *env) flush(idx []int) {
 	}
 }
 
-// ---- crash imager --------------------------------------------------------------------------------
+// ---- crash imager and fault injector ---------------------------------------------------------------
 
-// The version-set seam reports every manifest append. While armed, the imager follows the
-// commits of one rollup job: target commits (output + reference), the source commit (delete
-// rollup files), target commits again (delete references) and copies the node directory just
-// before the commit the case asked for ("the process dies here").
+// The version-set seam reports every manifest append (= every commit of an edit log). While
+// armed, the imager follows the commits of one rollup job of source family F:
+//
+//	target commits   in each open target interval with files to merge: output file + reference records
+//	source commit    in F: DeleteRollupFile for every (file, interval) handled
+//	clean commits    in each of those target families: delete the reference records
+//
+// and either copies the node directory just before the commit the case asked for ("the process
+// dies here"; crashKinds) or lets that manifest write fail (faultKinds). What had been committed
+// by then is recorded, so that the model knows the state on the image without looking into it.
+var crashKinds = map[string]bool{
+	"beforeFirstTarget":  true, // output table of the first interval written, nothing committed
+	"betweenTargets":     true, // first interval committed (output + reference), second not
+	"beforeSourceCommit": true, // every interval committed in the target, the source still lists the files
+	"beforeFirstClean":   true, // source commit done, every reference still there
+	"betweenCleans":      true, // one reference clean-up done, the other not
+}
+
+var faultKinds = map[string]bool{
+	"target1": true, "target2": true, // the first / second target commit of the job fails
+	"source": true,                 // the source commit fails
+	"clean1": true, "clean2": true, // the first / second reference clean-up fails
+}
+
+// jobRecord: the commits of the job seen so far, target intervals by their directory type.
+type jobRecord struct {
+	Targets []string // "month" / "year": target commits done (in order)
+	Source  bool     // source commit done
+	Cleans  []string // reference clean-ups done
+	Failed  string   // "", "target:<type>", "source", "clean:<type>": the commit whose manifest write failed
+}
+
 type imager struct {
-	mu      sync.Mutex
-	armed   bool
-	kind    string
-	root    string
-	dst     string
-	taken   bool
-	err     error
-	targets int
-	source  bool
-	cleans  int
+	mu       sync.Mutex
+	armed    bool
+	kind     string // crash kind, or
+	fault    string // fault kind
+	root     string
+	dst      string
+	taken    bool
+	faulted  bool
+	failNext string // path of the manifest whose next write fails
+	paused   bool   // an injected source-side step is running on the job's goroutine: its commits are not the job's
+	err      error
+	rec      jobRecord // current job
+	seenT    int       // target commits attempted before the source commit (incl. a failed one)
+	seenC    int       // clean commits attempted
+	atEvent  jobRecord // the record when the image was taken / the write failed
 }
 
 var theImager = &imager{}
@@ -1554,48 +1822,119 @@ func (im *imager) hook(op, path string, before bool) {
 	}
 	im.mu.Lock()
 	defer im.mu.Unlock()
-	if !im.armed || im.taken || !strings.HasPrefix(path, im.root) {
+	if !im.armed || im.paused || im.taken || !strings.HasPrefix(path, im.root) {
 		return
 	}
-	isSource := strings.Contains(path, "/segment/day/")
-	isTarget := strings.Contains(path, "/segment/month/") || strings.Contains(path, "/segment/year/")
-	take := false
+	typ := ""
 	switch {
-	case isSource:
-		im.source = true
+	case strings.Contains(path, "/segment/day/"):
+	case strings.Contains(path, "/segment/month/"):
+		typ = "month"
+	case strings.Contains(path, "/segment/year/"):
+		typ = "year"
+	default:
+		return
+	}
+	take, fail := false, false
+	event := ""
+	switch {
+	case typ == "":
+		event = "source"
 		take = im.kind == "beforeSourceCommit"
-	case isTarget && !im.source:
-		im.targets++
-		take = im.kind == "betweenTargets" && im.targets == 2
-	case isTarget && im.source:
-		im.cleans++
-		take = (im.kind == "beforeFirstClean" && im.cleans == 1) || (im.kind == "betweenCleans" && im.cleans == 2)
+		fail = im.fault == "source"
+	case !im.rec.Source:
+		im.seenT++
+		event = "target:" + typ
+		take = (im.kind == "beforeFirstTarget" && im.seenT == 1) || (im.kind == "betweenTargets" && im.seenT == 2)
+		fail = (im.fault == "target1" && im.seenT == 1) || (im.fault == "target2" && im.seenT == 2)
+	default:
+		im.seenC++
+		event = "clean:" + typ
+		take = (im.kind == "beforeFirstClean" && im.seenC == 1) || (im.kind == "betweenCleans" && im.seenC == 2)
+		fail = (im.fault == "clean1" && im.seenC == 1) || (im.fault == "clean2" && im.seenC == 2)
 	}
 	if take {
 		im.taken = true
+		im.atEvent = im.rec.clone()
 		im.err = crash.CopyTree(im.root, im.dst)
+		return
+	}
+	if fail && !im.faulted {
+		im.faulted, im.failNext = true, path
+		im.rec.Failed = event
+		im.atEvent = im.rec.clone()
+		return
+	}
+	switch {
+	case typ == "":
+		im.rec.Source = true
+	case !im.rec.Source:
+		im.rec.Targets = append(im.rec.Targets, typ)
+	default:
+		im.rec.Cleans = append(im.rec.Cleans, typ)
 	}
 }
 
-func (im *imager) arm(kind, root, dst string) {
-	im.mu.Lock()
-	defer im.mu.Unlock()
-	im.armed, im.kind, im.root, im.dst = true, kind, root, dst
-	im.taken, im.err = false, nil
-	im.targets, im.source, im.cleans = 0, false, 0
+func (r jobRecord) clone() jobRecord {
+	r.Targets = append([]string(nil), r.Targets...)
+	r.Cleans = append([]string(nil), r.Cleans...)
+	return r
 }
 
-// nextJob resets the per-job counters (a new source family starts its rollup job).
+func (r jobRecord) has(list []string, typ string) bool {
+	for _, x := range list {
+		if x == typ {
+			return true
+		}
+	}
+	return false
+}
+
+// faultFn is asked by the seam right after the before-call of the hook: a non-nil error makes
+// the manifest write fail without a byte written.
+func (im *imager) faultFn(op, path string) error {
+	im.mu.Lock()
+	defer im.mu.Unlock()
+	if op == "manifestWrite" && im.failNext != "" && path == im.failNext {
+		im.failNext = ""
+		return errors.New("harness: injected I/O error (manifest record not written)")
+	}
+	return nil
+}
+
+func (im *imager) arm(kind, fault, root, dst string) {
+	im.mu.Lock()
+	defer im.mu.Unlock()
+	im.armed, im.kind, im.fault, im.root, im.dst = true, kind, fault, root, dst
+	im.taken, im.faulted, im.failNext, im.paused, im.err = false, false, "", false, nil
+	im.rec, im.seenT, im.seenC, im.atEvent = jobRecord{}, 0, 0, jobRecord{}
+}
+
+// nextJob resets the per-job record (a new source family starts its rollup job).
 func (im *imager) nextJob() {
 	im.mu.Lock()
 	defer im.mu.Unlock()
-	im.targets, im.source, im.cleans = 0, false, 0
+	im.rec, im.seenT, im.seenC = jobRecord{}, 0, 0
+}
+
+func (im *imager) pause(on bool) {
+	im.mu.Lock()
+	defer im.mu.Unlock()
+	im.paused = on
+}
+
+// state: has the image been taken / the write failed in the job that just ran, and what had the
+// job committed by then.
+func (im *imager) state() (taken, faulted bool, at jobRecord) {
+	im.mu.Lock()
+	defer im.mu.Unlock()
+	return im.taken, im.faulted, im.atEvent
 }
 
 func (im *imager) disarm() (taken bool, err error) {
 	im.mu.Lock()
 	defer im.mu.Unlock()
-	im.armed = false
+	im.armed, im.failNext = false, ""
 	return im.taken, im.err
 }
 
@@ -1738,17 +2077,20 @@ func (e *env) rolledAnywhere() (rs []filePoints) {
 }
 
 // jobInputs: what the rollup job of a source family must do if it started now. Per target
-// interval: the files still waiting for it - if the target segment of the family's time is open;
-// an interval whose segment is not open is skipped by the job and its files keep waiting for it.
+// interval: the files the source family lists for it (byTarget: still waiting, or merged by an
+// interrupted job and not acknowledged) - if the target segment of the family's time is open; an
+// interval whose segment is not open is skipped by the job and its files keep waiting for it.
+// Of the listed files only those that the target does not hold yet are merged (merge).
 type jobInputs struct {
 	byTarget map[int64][]*srcFile
+	merge    map[int64][]*srcFile
 	skipped  []int64
-	files    map[*srcFile]bool // inputs of at least one interval
-	live     map[*srcFile]bool // files of the family waiting for at least one interval when the job starts
+	files    map[*srcFile]bool // merged into at least one interval
+	live     map[*srcFile]bool // files of the family listed for at least one interval when the job starts
 }
 
 func (e *env) jobInputs(f *famState) *jobInputs {
-	in := &jobInputs{byTarget: map[int64][]*srcFile{}, files: map[*srcFile]bool{}, live: map[*srcFile]bool{}}
+	in := &jobInputs{byTarget: map[int64][]*srcFile{}, merge: map[int64][]*srcFile{}, files: map[*srcFile]bool{}, live: map[*srcFile]bool{}}
 	for _, target := range e.p.targets() {
 		w := f.waitingFor(target)
 		for _, sf := range w {
@@ -1762,10 +2104,81 @@ func (e *env) jobInputs(f *famState) *jobInputs {
 		}
 		in.byTarget[target] = w
 		for _, sf := range w {
-			in.files[sf] = true
+			if !sf.done[target] {
+				in.merge[target] = append(in.merge[target], sf)
+				in.files[sf] = true
+			}
 		}
 	}
 	return in
+}
+
+// complete: the job ran to its end: every listed file of every handled interval is in the
+// target (the new ones merged by this job), acknowledged on the source side, reference forgotten.
+func (in *jobInputs) complete(job int) {
+	for target, files := range in.byTarget {
+		for _, sf := range files {
+			if !sf.done[target] {
+				sf.done[target] = true
+				sf.jobs[target] = job
+			}
+			sf.unacked[target], sf.ref[target] = false, false
+		}
+	}
+}
+
+// partial: the process died when the job had got as far as rec says (crash image).
+func (in *jobInputs) partial(job int, rec jobRecord) {
+	for target, files := range in.byTarget {
+		typ := typeDir(target)
+		for _, sf := range files {
+			if rec.has(rec.Targets, typ) && !sf.done[target] {
+				sf.done[target] = true
+				sf.jobs[target] = job
+				sf.unacked[target], sf.ref[target] = true, true
+			}
+			if rec.Source && sf.done[target] {
+				sf.unacked[target] = false // the source commit acknowledges every interval the job handled
+			}
+			if rec.has(rec.Cleans, typ) {
+				sf.ref[target] = false
+			}
+		}
+	}
+}
+
+// faulted: one manifest write of the job failed (failed = "target:<type>", "source",
+// "clean:<type>"), the job went on. What the property requires of the job then:
+//   - target commit of an interval failed: nothing of the job's files is in that interval, they keep
+//     waiting for it; the other interval is handled normally;
+//   - source commit failed: the files are merged and the source family still lists them: they are
+//     "merged, not acknowledged" exactly as after a crash in that window - the next job must not
+//     merge them again (whether the job still cleans the references is its own business: refLoose);
+//   - a reference clean-up failed: the reference stays, nothing else.
+func (in *jobInputs) faulted(job int, failed string) {
+	for target, files := range in.byTarget {
+		typ := typeDir(target)
+		if failed == "target:"+typ {
+			continue
+		}
+		for _, sf := range files {
+			if !sf.done[target] {
+				sf.done[target] = true
+				sf.jobs[target] = job
+				sf.unacked[target], sf.ref[target] = true, true
+			}
+			switch failed {
+			case "source":
+				if sf.unacked[target] {
+					sf.refLoose[target] = true
+				}
+			case "clean:" + typ:
+				sf.unacked[target] = false
+			default:
+				sf.unacked[target], sf.ref[target] = false, false
+			}
+		}
+	}
 }
 
 // concurrentJobsShareTargetFamily: two of the families belong to the same source store (day) and
@@ -1787,14 +2200,26 @@ func (e *env) concurrentJobsShareTargetFamily(sel []*famState, jobs map[*famStat
 	return false
 }
 
-func (e *env) rollup(s step) {
+func (e *env) rollup(s step, when string) {
 	sel := e.selected(s.Families)
 	jobs := map[*famState]*jobInputs{}
-	if s.Crash != "" {
-		e.crashDir = e.dir + "-image"
-		e.crashKind = s.Crash
-		theImager.arm(s.Crash, e.dir, e.crashDir)
+	if s.Crash != "" && !crashKinds[s.Crash] || s.Fault != "" && !faultKinds[s.Fault] || s.Crash != "" && s.Fault != "" {
+		e.fatalf("harness: rollup step with crash %q fault %q", s.Crash, s.Fault)
 	}
+	imageDir := ""
+	if s.Crash != "" || s.Fault != "" {
+		if s.Force {
+			e.fatalf("harness: crash / fault in a Store.ForceRollup step")
+		}
+		if s.Crash != "" {
+			imageDir = fmt.Sprintf("%s-i%d", e.dirs[0], len(e.dirs))
+			e.dirs = append(e.dirs, imageDir)
+		}
+	}
+	theImager.arm(s.Crash, s.Fault, e.dir, imageDir) // (also resets what the previous step left)
+	ran := sel
+	var crashedIn, faultIn *famState
+	var eventRec jobRecord
 	if s.Force {
 		// Store.ForceRollup: every family of the source store starts its job (concurrently);
 		// no job opens or closes a store, so the inputs of all jobs are fixed now
@@ -1833,6 +2258,7 @@ func (e *env) rollup(s step) {
 			}
 		}
 	} else {
+		ran = nil
 		for _, f := range sel {
 			theImager.nextJob()
 			// the job takes the files waiting now; files flushed while it runs are not its inputs
@@ -1840,9 +2266,14 @@ func (e *env) rollup(s step) {
 			var failure string
 			job := f.idx
 			theInjector.arm(e.dir, func(n int) {
+				if taken, _, _ := theImager.state(); taken {
+					return // the process died before this point
+				}
 				for _, in := range s.Inject {
 					if in.JobFam == job && in.At == n && failure == "" {
+						theImager.pause(true)
 						failure = e.inject(in)
+						theImager.pause(false)
 					}
 				}
 			})
@@ -1852,27 +2283,32 @@ func (e *env) rollup(s step) {
 			if failure != "" {
 				e.fatalf("source-side step inside the rollup job of family %s %02d:00: %s", f.pos.Date, f.pos.Hour, failure)
 			}
+			ran = append(ran, f)
+			taken, faulted, at := theImager.state()
+			if taken {
+				crashedIn, eventRec = f, at
+				break // the process died inside this job: the jobs of the other families never started
+			}
+			if faulted && faultIn == nil {
+				faultIn, eventRec = f, at
+			}
 		}
 	}
-	if s.Crash != "" {
-		taken, err := theImager.disarm()
-		if err != nil {
-			e.fatalf("harness: crash image: %v", err)
+	if _, err := theImager.disarm(); err != nil {
+		e.fatalf("harness: crash image: %v", err)
+	}
+	if s.Crash != "" || s.Fault != "" {
+		if crashedIn == nil && s.Crash != "" {
+			e.class("crash point " + s.Crash + " not reached by any job of the step (nothing dies)")
 		}
-		if taken {
-			e.crashFiles = e.allFiles()
-			for _, in := range jobs {
-				if len(in.skipped) > 0 {
-					e.class("crash image taken in a rollup step whose job skipped a target interval")
-				}
-			}
-		} else {
-			e.crashDir = ""
+		if faultIn == nil && s.Fault != "" {
+			e.class("fault point " + s.Fault + " not reached by any job of the step")
 		}
 	}
 	targets := e.p.targets()
-	for _, f := range sel {
+	for _, f := range ran {
 		in := jobs[f]
+		e.classesAfterCrash(f, in, crashedIn == f)
 		rolledBefore := len(f.rolledAny())
 		if len(in.files) == 0 && len(in.skipped) == 0 && f.rollups > 0 {
 			e.class("rollup repeated (no new source file)")
@@ -1896,14 +2332,14 @@ func (e *env) rollup(s step) {
 				e.class("rollup job: one target interval skipped (segment not open), nothing waits for the other")
 			}
 		}
-		for target, files := range in.byTarget {
+		for target, files := range in.merge {
 			if len(files) == 0 {
 				continue
 			}
 			// a live file of the family that is NOT an input of this interval: it was merged into
 			// this interval by an earlier job that skipped another interval
 			for sf := range in.live {
-				if sf.done[target] {
+				if sf.done[target] && !sf.unacked[target] {
 					e.class("rollup job: an interval merges new files while an older file waits only for the other interval (left over by a skip)")
 				}
 			}
@@ -1957,13 +2393,162 @@ func (e *env) rollup(s step) {
 			}
 		}
 		e.jobSeq++
-		for target, files := range in.byTarget {
-			for _, sf := range files {
-				sf.done[target] = true
-				sf.jobs[target] = e.jobSeq
+		switch f {
+		case crashedIn:
+			in.partial(e.jobSeq, eventRec)
+		case faultIn:
+			in.faulted(e.jobSeq, eventRec.Failed)
+			e.faults++
+			e.class("fault: manifest write of the " + strings.SplitN(eventRec.Failed, ":", 2)[0] + " commit of a rollup job failed")
+			for target, files := range in.byTarget {
+				for _, sf := range files {
+					if sf.unacked[target] {
+						e.class("fault: files merged into the target, source commit failed (merged, not acknowledged)")
+					}
+				}
 			}
+		default:
+			in.complete(e.jobSeq)
 		}
 		f.rollups++
+	}
+	if crashedIn != nil {
+		e.die(s, crashedIn, eventRec, when)
+	}
+}
+
+// classesAfterCrash counts what the continuation of a crashed history does with the files the
+// interrupted job left "merged, not acknowledged".
+func (e *env) classesAfterCrash(f *famState, in *jobInputs, crashesNow bool) {
+	mixed, onlyMerged := false, false
+	for target, files := range in.byTarget {
+		old := 0
+		for _, sf := range files {
+			if sf.unacked[target] {
+				old++
+			}
+		}
+		if old > 0 && len(in.merge[target]) > 0 {
+			mixed = true
+		}
+		if old > 0 && len(in.merge[target]) == 0 {
+			onlyMerged = true
+		}
+	}
+	if mixed {
+		e.class("retry: a job is asked for {already merged, new} files of one interval (must merge only the new ones)")
+		if e.faults > 0 && e.crashes == 0 {
+			e.class("retry: ... after a failed source commit (no crash)")
+		}
+		if crashesNow {
+			e.class("retry: ... and the process dies again inside that job")
+		}
+		if e.lastCrash != nil && e.lastCrash.restarted >= 2 {
+			e.class("retry: ... after >= 2 restarts")
+		}
+		if len(e.compacted) > 0 {
+			e.class("retry: ... after a compaction of a target family")
+		}
+	}
+	if onlyMerged {
+		e.class("retry: a job is asked only for already merged files of an interval (must merge nothing)")
+		if crashesNow {
+			e.class("retry: ... and the process dies again inside that job")
+		}
+	}
+	if (mixed || onlyMerged) && len(in.skipped) > 0 {
+		e.class("retry: ... while the other target segment is closed")
+	}
+	if lc := e.lastCrash; lc != nil && lc.inWindow && lc.fam != f.idx && len(in.files) > 0 && e.sharesTargetFamily(lc.fam, f.idx) {
+		e.class("after a crash in the window: a job of ANOTHER source family merges into the same target family before/after the retry")
+	}
+}
+
+// sharesTargetFamily: the two source families roll up into the same family of some target interval.
+func (e *env) sharesTargetFamily(a, b int) bool {
+	for _, target := range e.p.targets() {
+		s1, f1, _ := targetPos(target, e.fams[a].pos.Time)
+		s2, f2, _ := targetPos(target, e.fams[b].pos.Time)
+		if s1 == s2 && f1 == f2 {
+			return true
+		}
+	}
+	return false
+}
+
+// die: the process died where the image was taken. The engine that is still running (the job
+// went on after the copy) is shut down and its directory forgotten; the engine is started on the
+// image (Restarts times), the source families are reopened, and the history continues there.
+func (e *env) die(s step, f *famState, rec jobRecord, when string) {
+	e.crashes++
+	e.class("crash image: " + s.Crash)
+	lc := &crashInfo{kind: s.Crash, fam: f.idx, files: map[int]bool{}}
+	for _, sf := range f.files {
+		lc.files[sf.ID] = true
+		for _, target := range e.p.targets() {
+			lc.inWindow = lc.inWindow || sf.unacked[target]
+		}
+	}
+	e.lastCrash = lc
+	if lc.inWindow {
+		e.class("crash image in the window target commit .. source commit (files merged, still listed by the source)")
+	}
+	if e.crashes >= 2 {
+		e.class("crash image: >= 2 crashes in one history")
+	}
+	if e.faults > 0 {
+		e.class("crash image after a failed manifest write in the same history")
+	}
+	if len(e.closedTargets()) > 0 {
+		e.class("crash image taken while a target segment is closed")
+	}
+	// readers die with the process, rows in memory are lost
+	if e.dead == nil {
+		e.dead = map[int]bool{}
+	}
+	for _, id := range e.readerIDs() {
+		e.dead[id] = true
+		e.releaseReader(id, when, false)
+	}
+	for _, snap := range e.extraSnaps {
+		snap.Close()
+	}
+	e.extraSnaps = nil
+	lost := false
+	for _, x := range e.fams {
+		lost = lost || len(x.mem) > 0
+		x.mem, x.df = nil, nil
+	}
+	if lost {
+		e.class("crash image: rows in memory lost")
+	}
+	old := e.dir
+	e.closeNode()
+	e.n = nil
+	_ = os.RemoveAll(old)
+	e.dir = e.dirs[len(e.dirs)-1]
+	restarts := s.Restarts
+	if restarts < 1 {
+		restarts = 1
+	}
+	for i := 0; i < restarts; i++ {
+		if i > 0 {
+			e.closeNode()
+			e.n = nil
+		}
+		e.start(e.dir)
+		e.openFamilies()
+		lc.restarted++
+	}
+	if restarts >= 2 {
+		e.class("crash image: >= 2 restarts before the history continues")
+	}
+	e.reopened = true
+	if s.CrashReader {
+		for _, x := range e.fams {
+			e.extraSnaps = append(e.extraSnaps, x.df.Family().GetSnapshot())
+		}
+		e.class("crash image: a reader holds the recovered source versions across the following steps")
 	}
 }
 
@@ -2255,7 +2840,7 @@ func sortedCells[V any](m map[cell]V) []cell {
 }
 
 // compare: stored cells of the target == aggregate of the model points of the given source files.
-func (e *env) compare(when string, target int64, want map[cell][]contrib, got map[cell][]stored, closed map[string]bool) {
+func (e *env) compare(when string, target int64, want map[cell][]contrib, got map[cell][]stored, closed map[string]bool, compacted map[string]int) {
 	iv := timeutil.Interval(target).String()
 	for _, c := range sortedCells(want) {
 		if closed[c.Segment] {
@@ -2341,18 +2926,69 @@ func (e *env) compare(when string, target int64, want map[cell][]contrib, got ma
 	}
 	// exactly once, also for aggregates that hide a repetition (min, max, first, last, sum of
 	// zeros): a job writes everything it merges into a target family into one new file, so a cell
-	// is stored once per job that merged a source file with a point for it
+	// is stored once per job that merged a source file with a point for it; a level-0 compaction
+	// of the target family merges all its files: the jobs up to then count as one
 	for _, c := range sortedCells(want) {
 		if closed[c.Segment] {
 			continue
 		}
+		upTo := compacted[familyKey(target, c.Segment, c.Family)]
 		jobs := map[int]bool{}
 		for _, x := range want[c] {
-			jobs[x.Job] = true
+			if x.Job <= upTo {
+				jobs[0] = true
+			} else {
+				jobs[x.Job] = true
+			}
 		}
 		if st := got[c]; len(st) != len(jobs) {
 			e.fatalf("%s: target %s %s is stored in %d files %+v, but %d rollup job(s) merged a source file with a point for it (a source file contributed more or less than once); source points %+v",
 				when, iv, c, len(st), st, len(jobs), want[c])
+		}
+	}
+}
+
+func familyKey(target int64, segment, family string) string {
+	return fmt.Sprintf("%d/%s/%s", target, segment, family)
+}
+
+// compactTarget: level-0 compaction of the target families (the job Family.Compact starts when a
+// family has more than one level-0 file), run synchronously. Only families of open segments (as
+// production: the store's periodic check walks the families of open stores).
+func (e *env) compactTarget(s step, when string) {
+	targets := e.p.targets()
+	for k, target := range targets {
+		if s.Target != k && s.Target < len(targets) {
+			continue
+		}
+		saved := e.kvOnly
+		e.kvOnly = true // list through the store manager: the step must not open or load anything
+		tfs, _ := e.targetFamilies(target)
+		e.kvOnly = saved
+		for _, tf := range tfs {
+			snap := tf.kvFamily.GetSnapshot()
+			refs := 0
+			for _, byFam := range snap.GetCurrent().GetAllReferenceFiles() {
+				for _, files := range byFam {
+					refs += len(files)
+				}
+			}
+			snap.Close()
+			ran, err := kv.VerifCompactSync(tf.kvFamily, true)
+			if err != nil {
+				e.fatalf("%s: compaction of target family %s/%s/%s: %v", when, typeDir(target), tf.Segment, tf.Family, err)
+			}
+			if !ran {
+				continue
+			}
+			e.compacted[familyKey(target, tf.Segment, tf.Family)] = e.jobSeq
+			e.class("target family compacted (level 0 -> 1)")
+			if refs > 0 {
+				e.class("target family compacted while it holds reference records (interrupted job not yet retried)")
+			}
+			if e.crashes > 0 {
+				e.class("target family compacted on a recovered image")
+			}
 		}
 	}
 }
@@ -2403,15 +3039,27 @@ func (e *env) diagnose() string {
 	return b.String()
 }
 
-// bookkeeping: source families list exactly their not-yet-rolled-up files, each for exactly
-// the target intervals it has not been rolled up into (file numbers grow in flush order); no
-// (open) target family keeps a reference file.
+// bookkeeping: source families list exactly the files the model says they list (not yet rolled
+// up, or merged by an interrupted job and not acknowledged), each for exactly those target
+// intervals (file numbers grow in flush order); every (open) target family holds exactly the
+// reference records the model says it holds: none after a complete job, those of the merged files
+// between commit 1 and commit 3 of an interrupted one.
 func (e *env) checkBookkeeping(when string, fams []*famState, checkRefs bool) {
 	targets := e.p.targets()
 	for _, f := range fams {
 		snap := f.df.Family().GetSnapshot()
 		rf := snap.GetCurrent().GetRollupFiles()
+		all := snap.GetCurrent().GetAllFiles()
 		snap.Close()
+		// the kv file numbers of the model's files: the source family is never compacted, its
+		// files are the flushed files in flush order
+		sort.Slice(all, func(i, j int) bool { return all[i].GetFileNumber() < all[j].GetFileNumber() })
+		if len(all) != len(f.files) {
+			e.fatalf("%s: source family %s %02d:00 holds %d files, %d were flushed%s", when, f.pos.Date, f.pos.Hour, len(all), len(f.files), e.diagnose())
+		}
+		for i, fm := range all {
+			f.files[i].number = fm.GetFileNumber().Int64()
+		}
 		waiting, ivs := f.waiting(targets)
 		if len(rf) != len(waiting) {
 			e.fatalf("%s: source family %s %02d:00 lists %d rollup files %v, %d flushed files wait for rollup (for %v)", when, f.pos.Date, f.pos.Hour, len(rf), rf, len(waiting), ivs)
@@ -2427,13 +3075,13 @@ func (e *env) checkBookkeeping(when string, fams []*famState, checkRefs bool) {
 				got = append(got, iv.Int64())
 			}
 			sort.Slice(got, func(a, b int) bool { return got[a] < got[b] })
-			if fmt.Sprint(got) != fmt.Sprint(ivs[i]) {
-				e.fatalf("%s: source family %s %02d:00: file %d (the %d. waiting file in flush order) waits for target intervals %v, it has not been rolled up into %v (configured targets %v)",
-					when, f.pos.Date, f.pos.Hour, file, i+1, got, ivs[i], targets)
+			if fmt.Sprint(got) != fmt.Sprint(ivs[i]) || file.Int64() != waiting[i].number {
+				e.fatalf("%s: source family %s %02d:00: file %d (the %d. waiting file in flush order, file %d) waits for target intervals %v, the model says %v (configured targets %v)",
+					when, f.pos.Date, f.pos.Hour, file, i+1, waiting[i].number, got, ivs[i], targets)
 			}
 		}
 	}
-	if !checkRefs {
+	if !checkRefs || os.Getenv("C04_NO_REFCHECK") != "" { // (by hand: sensitivity of the data oracle alone)
 		return
 	}
 	for _, target := range targets {
@@ -2442,8 +3090,40 @@ func (e *env) checkBookkeeping(when string, fams []*famState, checkRefs bool) {
 			snap := tf.kvFamily.GetSnapshot()
 			refs := snap.GetCurrent().GetAllReferenceFiles()
 			snap.Close()
-			if len(refs) != 0 {
-				e.fatalf("%s: target family %s/%s/%s still holds reference files %v", when, typeDir(target), tf.Segment, tf.Family, refs)
+			got := map[string]bool{}
+			for store, byFam := range refs {
+				for _, files := range byFam {
+					for _, file := range files {
+						got[fmt.Sprintf("%s/%d", store, file.Int64())] = true
+					}
+				}
+			}
+			want, loose := map[string]bool{}, map[string]bool{}
+			for _, f := range e.fams {
+				if seg, fam, _ := targetPos(target, f.pos.Time); seg != tf.Segment || fam != tf.Family {
+					continue
+				}
+				store := time.UnixMilli(f.pos.Time).UTC().Format("20060102")
+				for _, sf := range f.files {
+					key := fmt.Sprintf("%s/%d", store, sf.number)
+					switch {
+					case sf.refLoose[target]:
+						loose[key] = true
+					case sf.ref[target]:
+						want[key] = true
+					}
+				}
+			}
+			for key := range got {
+				if !want[key] && !loose[key] {
+					e.fatalf("%s: target family %s/%s/%s holds a reference record for source file %s (all: %v); the model expects %v", when, typeDir(target), tf.Segment, tf.Family, key, refs, want)
+				}
+			}
+			for key := range want {
+				if !got[key] {
+					e.fatalf("%s: target family %s/%s/%s holds no reference record for source file %s although that file is merged and the job has not cleaned up (references: %v)", when, typeDir(target), tf.Segment, tf.Family, key, refs)
+				}
+				e.class("check: a target family holds reference records (between commit 1 and 3 of an interrupted job)")
 			}
 		}
 	}
@@ -2454,7 +3134,7 @@ func (e *env) checkTargets(when string, filesOf func(target int64) []filePoints)
 	id := e.resolveIDs()
 	for _, target := range e.p.targets() {
 		got, closed := e.readTarget(target, id)
-		e.compare(when, target, expected(e.p, target, filesOf(target)), got, closed)
+		e.compare(when, target, expected(e.p, target, filesOf(target)), got, closed, e.compacted)
 	}
 }
 
@@ -2572,7 +3252,7 @@ func (e *env) runQueries() {
 // ---- the property -------------------------------------------------------------------------------------
 
 func runPlan(t tb, p *plan) (classes []string, nontrivial bool) {
-	version.VerifSetFSHook(theImager.hook)
+	version.VerifSetFSHookWithFaults(theImager.hook, theImager.faultFn)
 	defer version.VerifSetFSHook(nil)
 	table.VerifSetFSHook(theInjector.hook)
 	defer table.VerifSetFSHook(nil)
@@ -2582,7 +3262,7 @@ func runPlan(t tb, p *plan) (classes []string, nontrivial bool) {
 		t.Fatalf("tempdir: %v", err)
 	}
 	caseCounter++
-	e := &env{t: t, p: p, dir: dir, classes: map[string]bool{}, db: fmt.Sprintf("%s%d", dbName, caseCounter), countFiles: true}
+	e := &env{t: t, p: p, dir: dir, dirs: []string{dir}, classes: map[string]bool{}, db: fmt.Sprintf("%s%d", dbName, caseCounter), countFiles: true, compacted: map[string]int{}}
 	defer func() {
 		_, _ = theImager.disarm()
 		for _, r := range e.readers {
@@ -2596,8 +3276,9 @@ func runPlan(t tb, p *plan) (classes []string, nontrivial bool) {
 		if e.n != nil {
 			e.closeNode()
 		}
-		_ = os.RemoveAll(dir)
-		_ = os.RemoveAll(dir + "-image")
+		for _, d := range e.dirs {
+			_ = os.RemoveAll(d)
+		}
 	}()
 	e.start(dir)
 	if err := e.n.CreateDB(e.db, node.DBOption(intervals(p)...), models.ShardID(0)); err != nil {
@@ -2620,9 +3301,12 @@ func runPlan(t tb, p *plan) (classes []string, nontrivial bool) {
 		case "flush":
 			e.flush(s.Families)
 		case "rollup":
-			e.rollup(s)
-			// after a rollup job the selected families have nothing left to roll up
+			e.rollup(s, when)
+			// after a rollup job (or on the image of an interrupted one) the source families list
+			// exactly what the model says, the target families hold exactly the model's references
 			e.checkBookkeeping(when, e.fams, true)
+		case "compactTarget":
+			e.compactTarget(s, when)
 		case "evict":
 			e.evict(s)
 			e.checkBookkeeping(when, e.fams, false)
@@ -2631,6 +3315,9 @@ func runPlan(t tb, p *plan) (classes []string, nontrivial bool) {
 		case "snap":
 			e.takeReader(*s.Reader, when, false)
 		case "release":
+			if e.dead[s.Reader.ID] {
+				break // died with a crashed process
+			}
 			e.releaseReader(s.Reader.ID, when, true)
 			e.class("reader: closed by a step of the history")
 		case "reopen":
@@ -2638,15 +3325,22 @@ func runPlan(t tb, p *plan) (classes []string, nontrivial bool) {
 				e.class("reader: dropped by a restart")
 			}
 			e.releaseAll(when, true) // the readers die with the process
-			e.closeNode()            // production shutdown flushes the memory databases
+			for _, snap := range e.extraSnaps {
+				snap.Close()
+			}
+			e.extraSnaps = nil
+			if e.lastCrash != nil {
+				e.lastCrash.restarted++
+			}
+			e.closeNode() // production shutdown flushes the memory databases
 			for _, f := range e.fams {
 				e.memToFile(f)
 			}
-			e.start(dir)
+			e.start(e.dir)
 			e.openFamilies()
 			e.reopened = true
 			e.class("reopen")
-			e.checkBookkeeping(when, e.fams, false)
+			e.checkBookkeeping(when, e.fams, true)
 		}
 		// the target holds exactly the rolled-up files after every step
 		e.checkTargets(when, e.rolledFiles)
@@ -2665,51 +3359,6 @@ func runPlan(t tb, p *plan) (classes []string, nontrivial bool) {
 		e.class("reader: snapshot held to the end of the history")
 	}
 	e.releaseAll("end of the history", true)
-
-	// crash image: restart on the image, roll up again, every source file on disk at the crash counts once
-	if e.crashDir != "" {
-		e.class("crash image: " + e.crashKind)
-		e.closeNode()
-		e.n = nil
-		img := &env{t: t, p: p, dir: e.crashDir, classes: e.classes, db: e.db}
-		img.start(e.crashDir)
-		e.n = img.n // closed by the deferred cleanup
-		byFam := map[int][]filePoints{}
-		for _, f := range e.crashFiles {
-			byFam[f.Points[0].Fam] = append(byFam[f.Points[0].Fam], f)
-		}
-		for i, fp := range p.Families {
-			if len(byFam[i]) > 0 {
-				img.fams = append(img.fams, &famState{pos: fp, idx: i})
-			}
-		}
-		img.openFamilies()
-		if p.CrashRestarts >= 2 {
-			e.class("crash image: two restarts before the rollup")
-			img.closeNode()
-			e.n = nil
-			img.start(e.crashDir)
-			e.n = img.n
-			img.openFamilies()
-		}
-		if p.CrashReader {
-			// a reader (the first query after the restart) pins the recovered version of every
-			// source family, which lists whatever the interrupted job left registered
-			for _, f := range img.fams {
-				e.extraSnaps = append(e.extraSnaps, f.df.Family().GetSnapshot())
-			}
-			e.class("crash image: a reader holds source snapshots across the repeated rollups")
-		}
-		for round := 0; round < 2; round++ {
-			for _, f := range img.fams {
-				kv.VerifRollup(f.df.Family())
-				waitRollup(f.df.Family())
-			}
-			when := fmt.Sprintf("after a crash (%s), restart and rollup #%d", e.crashKind, round+1)
-			img.checkTargets(when, func(int64) []filePoints { return e.crashFiles })
-			img.checkBookkeeping(when, img.fams, false)
-		}
-	}
 
 	// classes and the non-trivial rule
 	for _, target := range p.targets() {
@@ -2843,7 +3492,7 @@ func TestObservation_CompactedSourceFile(t *testing.T) {
 	rapid.Check(t, func(t *rapid.T) {
 		p := genPlan(t)
 		// keep the configuration, the families, the schema and the first (priming) write; then a second write
-		g := &stepGen{t: t, p: p, last: map[string]int{}, mem: map[int]bool{}, pend: map[int]bool{}, onlyFam: -1, closed: map[int]bool{}}
+		g := &stepGen{t: t, p: p, last: map[string]int{}, mem: map[int]bool{}, pend: map[int]bool{}, onlyFam: -1, closed: map[int]bool{}, crashFam: -1}
 		second := g.commit(g.write())
 		p.Steps = []step{p.Steps[0], {Kind: "flush"}, second, {Kind: "flush"}, {Kind: "compact"}, {Kind: "rollup"}}
 		p.Queries = nil
@@ -2897,7 +3546,7 @@ func TestObservation_CompactedSourceFile(t *testing.T) {
 						}
 					}
 				case "rollup":
-					e.rollup(s)
+					e.rollup(s, "rollup")
 				}
 			}
 			if soft.msg != "" {
